@@ -38,6 +38,30 @@ THEOREMS = {
     "C02_space_any_number_of_cycles": "n save/load cycles of any space return it",
     "C02_space_of_screen": "the space of every constructible screen round-trips for any number of cycles, and from_screen commutes "
                            "with the screen's own round trip",
+    "C02_model_is_source_string_codec": "the translations of the helpers encode_string_array / decode_string_array (size-0 guard, "
+        "np.empty of the same shape, np.char.encode / decode) on 1-d and 2-d arrays are the identity on the strings of EVERY array, "
+        "also one without elements, where numpy's codec alone answers with a float64 array (the defect repaired in 81a412f)",
+    "C02_model_is_source_screen_save_h5": "the Gallina translation of the WHOLE method Screen.save_h5, regenerated from /repo's current "
+        "data.py on this run (Generated/SrcPersist.v), writes for every screen record a raw HDF5 file (datasets / attributes by name) "
+        "which, read back by name (h5_close), is exactly the model's save s: the 14 datasets and the attribute, each under the "
+        "model's name and from the model's attribute of the screen - treatment_mapping_names/_doses/_ids and "
+        "sample_mapping_names/_ids included (independent of the order of the create_dataset calls)",
+    "C02_model_is_source_screen_load_h5": "the translation of the WHOLE staticmethod Screen.load_h5, on ANY raw file that represents a "
+        "model record f (every dataset of f present under its name), equals the model's load f: which datasets are read, which are "
+        "decoded, and which keyword of Screen(...) each reaches - in particular sample_mapping=(sample_mapping_names, "
+        "sample_mapping_ids) and treatment_mapping=(treatment_mapping_names, _doses, _ids); Screen(...) is the model constructor "
+        "on exactly the keywords the call passes",
+    "C02_model_is_source_screen_save_load": "translated load_h5 applied to the raw file the translated save_h5 wrote = the model's "
+        "load (save s), for every screen record: the C02 theorems above are theorems about the translated source",
+    "C02_source_round_trip": "every constructible screen comes back unchanged from translated save_h5 + load_h5, after any number of cycles",
+    "C02_model_is_source_space_from_screen": "the translation of ExperimentSpace.from_screen = the model's space_of_screen (the "
+        "screen's treatment_mapping, sample_mapping, control_treatment_name passed to cls(...))",
+    "C02_model_is_source_space_save_h5": "the translation of ExperimentSpace.save_h5 writes a raw file that reads back (h5_close_space) "
+        "as the model's space_save sp: five datasets + the attribute under the model's names",
+    "C02_model_is_source_space_load_h5": "the translation of ExperimentSpace.load_h5 on any raw file representing a record g = the "
+        "model's space_load g (the two tuples built from the five datasets, cls(...) with the three keywords)",
+    "C02_model_is_source_space_save_load": "translated ExperimentSpace.load_h5 after translated save_h5 = space_load (space_save sp)",
+    "C02_source_space_round_trip": "translated from_screen, save_h5, load_h5 one after the other return space_of_screen s for every screen",
 }
 ASSUMPTIONS = [
     "h5py dataset write/read is the identity on numeric and bool arrays (values bit-for-bit, shape, dtype) and on a str attribute",
@@ -58,7 +82,31 @@ EXPLANATION = ("Model: Model/Persist.v (save/load/space_save/space_load over Mod
                "last file read back raw with h5py; or error-ness.  Predicate (implementation only): field-by-field equality "
                "before vs after each cycle incl. raw dose bits, array shapes, dtypes, type of the control name, and "
                "dataset-by-dataset equality of consecutive files.  corpus/C02/zero_rows.json and empty_space.json are the "
-               "witnesses of the defect repaired in /repo 81a412f (0-row screen / empty-mapping space did not load).")
+               "witnesses of the defect repaired in /repo 81a412f (0-row screen / empty-mapping space did not load).  "
+               "SOURCE LINK (C02_model_is_source_*): Screen.save_h5, Screen.load_h5, ExperimentSpace.from_screen / save_h5 / load_h5 are "
+               "re-translated WHOLE from /repo's data.py into Gallina on every run (harness/py2gal.py, configurations C02_* of "
+               "harness/src_functions.py, output Generated/SrcPersist.v; anything outside the fragment, a changed parameter list or a "
+               "dataset name without a primitive stops the build = broken obligation) and proved equal to Model/Persist.v's save / load / "
+               "space_of_screen / space_save / space_load for all inputs, through the representation map h5_close (raw file by name -> "
+               "the model's record).  From the translation: the sequence of create_dataset calls, which attribute of the object goes "
+               "under which dataset name, the `with` blocks, the return inside `with`, the tuples built for the two mappings, the "
+               "keyword arguments of Screen(...) / cls(...) and their evaluation order.  Trusted: the translator, and these primitives "
+               "(one call each): h5py.File(p, 'w') as f = an empty raw file, h5py.File(p, 'r') as f = the file's content, closing "
+               "changes nothing; f.create_dataset(NAME, data=d[, compression='gzip']) appends dataset NAME holding d (refused if NAME "
+               "exists), one primitive per literal NAME of the 14 screen / 5 space datasets with the array kind stored there; "
+               "f[NAME][:] = the stored array (KeyError when absent; another kind than expected is an error); f.attrs[NAME] = v / "
+               "f.attrs[NAME] set / read an attribute; encode_string_array / decode_string_array are themselves translated (per array "
+               "rank) and their calls run the translations; inside them: arr.size == 0 = the array has no element, "
+               "np.empty(arr.shape, dtype) = the array itself where it has no element (elsewhere refused), np.char.encode(arr) / "
+               "np.char.decode(arr, 'utf-8') = the identity on the strings of an array WITH elements and an error (numpy answers "
+               "with a float64 array) on one without; .astype(str) on a string array = the identity (str and bytes arrays are "
+               "different translator types, so a missing or doubled codec call is refused); "
+               "self.<attr> of a Screen = the column of its rows (2-d ones with shape[1]), its id arrays, its control name, its "
+               "treatment_mapping / sample_mapping as the tuple of the mapping's columns; m[0], m[1], m[2] = tuple projections; "
+               "self.<attr> of an ExperimentSpace likewise; Screen(...) = arrays_screen = mk_screen on the rows zipped from the arrays "
+               "passed (different lengths / shapes refused, a keyword not passed = None, mapping ids of integer dtype); cls(...) in "
+               "ExperimentSpace's classmethods = the record of its three arguments.  The differential correspondence above is what "
+               "exercises these primitives against real h5py / numpy.")
 
 # witnesses of the repaired defect (also stored as corpus/C02/*.json, run first on every check)
 WITNESS_ZERO_ROWS = dict(kind="empty", rows=[], arity=1, ctrl="", obs_given=True, mask_given=True, sel=None, shuffle=None, k=1, space=False)
